@@ -42,10 +42,8 @@ structure DAcc where
   fails : List Fail := []
   nS : Nat := 0
 
-def panicKnown (der faults cls : String) : String :=
-  let fixedLayout := (derTokens der).any (fun t => t == "fb:c2" || t == "fb:c3r")
-  -- (faults are not needed: the last datagram's share of a ClientHello that spans datagrams is short as well)
-  if fixedLayout && (faults ≠ "-" || faults == "-") && (cls == "varint_range" || cls == "index") then "fixed_layout_probe_panic" else "-"
+/-- no crash of the dialing process is a listed finding any more (the fixed-layout probe panic is fixed by 059c38c) -/
+def panicKnown (_der _faults _cls : String) : String := "-"
 
 def stepDial (op impl : String) : StepOut := Id.run do
   let a := opKV op
